@@ -118,6 +118,7 @@ type simCtx struct {
 	loop *sliceRange // for Elem subjects: the loop whose element is the subject
 	depth int
 	phiBusy map[*ssa.Phi]bool
+	lookupBusy bool
 }
 
 // subject matching ---------------------------------------------------------
@@ -194,6 +195,12 @@ func (c *simCtx) isSubjectList(v ssa.Value) bool {
 	v = resolve(v)
 	if c.sc.Param < len(c.f.Params) && v == ssa.Value(c.f.Params[c.sc.Param]) {
 		return true
+	}
+	// de-duplicated copy of the list: every distinct element is still there
+	if call, ok := v.(*ssa.Call); ok && len(call.Call.Args) >= 1 {
+		if calleeIs(call, modPath+"/common", "Unique") {
+			return c.isSubjectList(call.Call.Args[0])
+		}
 	}
 	// list derived element-wise by a notation conversion
 	if ex, ok := v.(*ssa.Extract); ok && ex.Index == 0 {
@@ -338,9 +345,70 @@ func (c *simCtx) oracle(cond ssa.Value) (bool, bool) {
 	case *ssa.Call:
 		return c.oracleCall(x)
 	case *ssa.Extract:
-		// ok-result of (error, bool) validators etc.: not modelled
+		if lk, ok := x.Tuple.(*ssa.Lookup); ok && x.Index == 1 {
+			return c.seenLookup(lk)
+		}
+	case *ssa.Lookup:
+		if !x.CommaOk {
+			if b, ok := x.Type().Underlying().(*types.Basic); ok && b.Kind() == types.Bool {
+				return c.seenLookup(x)
+			}
+		}
 	}
 	return false, false
+}
+
+// seenLookup: `seen[subject]` on a local map into which keys are inserted only
+// on paths that are unreachable under the scenario (e.g. after the validity
+// check) cannot hit: the offending element was never recorded.
+func (c *simCtx) seenLookup(lk *ssa.Lookup) (bool, bool) {
+	if c.lookupBusy || !c.textOfSubject(lk.Index) {
+		return false, false
+	}
+	mm, ok := resolve(lk.X).(*ssa.MakeMap)
+	if !ok {
+		return false, false
+	}
+	var updates []*ssa.MapUpdate
+	okAll := true
+	for _, ref := range *mm.Referrers() {
+		switch x := ref.(type) {
+		case *ssa.MapUpdate:
+			updates = append(updates, x)
+			if !c.textOfSubject(x.Key) {
+				okAll = false
+			}
+		case *ssa.Lookup, *ssa.DebugRef:
+		default:
+			okAll = false
+		}
+	}
+	if !okAll || len(updates) == 0 {
+		return false, false
+	}
+	c.lookupBusy = true
+	defer func() { c.lookupBusy = false }()
+	assumeMiss := func(v ssa.Value) (bool, bool) {
+		v = resolve(v)
+		if v == ssa.Value(lk) {
+			return false, true
+		}
+		if ex, ok := v.(*ssa.Extract); ok && ex.Tuple == ssa.Value(lk) && ex.Index == 1 {
+			return false, true
+		}
+		return c.oracle(v)
+	}
+	start := c.f.Blocks[0]
+	if c.loop != nil {
+		start = c.loop.Body
+	}
+	reach := simulate(start, nil, assumeMiss)
+	for _, u := range updates {
+		if reach[u.Block()] {
+			return false, false
+		}
+	}
+	return false, true
 }
 
 func (c *simCtx) evalBoolPhi(p *ssa.Phi) (bool, bool) {
